@@ -211,7 +211,22 @@ func coqCase(k *Case, doc, out *Node) string {
 	if k.Suite == "collector" {
 		return c.Tuple(c.B(k.Request), excl, coqJSON(doc), tbl, coqJSON(out))
 	}
+	if coqSuite(k) == "plugin" {
+		return c.Tuple(excl, c.Bytes(k.Body), coqJSON(doc), tbl, coqJSON(out))
+	}
 	return c.Tuple(excl, coqJSON(doc), tbl, coqJSON(out))
+}
+
+// coqSuite: the correspondence suite a case is written to. JSON bodies sent
+// through the legacy plugin (Suite "direct", Via "plugin") are evaluated by
+// run_plugin = Model.plugin_body with `parsed = Some doc` (the call site as a
+// whole), the others by the run function of their own suite. The monitor
+// signatures keep the name of k.Suite.
+func coqSuite(k *Case) string {
+	if k.Suite == "direct" && k.Via == "plugin" {
+		return "plugin"
+	}
+	return k.Suite
 }
 
 // ---------------------------------------------------------------- run one case
@@ -287,9 +302,9 @@ func run(o *c.Out, k Case) {
 		// the generated bodies are valid JSON: a refusal / broken output is a
 		// failure of the structure clause
 		o.Count("implementation-error")
-		idx := o.Case(k.Suite, coqCase(&k, doc, &Node{Kind: kNull}), k, false)
+		idx := o.Case(coqSuite(&k), coqCase(&k, doc, &Node{Kind: kNull}), k, false)
 		o.MonitorChecked(1)
-		o.Hit(c.Hit{Suite: k.Suite, Index: idx, Signature: "structure:no-output@" + k.Suite,
+		o.Hit(c.Hit{Suite: coqSuite(&k), Index: idx, Signature: "structure:no-output@" + k.Suite,
 			Demanded: "an obfuscated document with the structure of the input",
 			Observed: k.Err, Case: k})
 		return
@@ -300,10 +315,10 @@ func run(o *c.Out, k Case) {
 		o.Count(t)
 	}
 	nontrivial := res.kept > 0 && res.hidden > 0
-	idx := o.Case(k.Suite, coqCase(&k, doc, out), k, nontrivial)
+	idx := o.Case(coqSuite(&k), coqCase(&k, doc, out), k, nontrivial)
 	o.MonitorChecked(1)
 	for _, h := range res.hits {
-		h.Suite, h.Index, h.Case = k.Suite, idx, k
+		h.Suite, h.Index, h.Case = coqSuite(&k), idx, k
 		o.Hit(h)
 	}
 	// classifier of finding F-C16c tied to the Coq predicate [ambiguous]: every
@@ -352,6 +367,7 @@ func main() {
 	o.DeclareSuite("direct", "From Verif Require Import C16.Model.", "case_direct", "run_direct")
 	o.DeclareSuite("collector", "From Verif Require Import C16.Model.", "case_collector", "run_collector")
 	o.DeclareSuite("rawbody", "From Verif Require Import C16.Model.", "case_rawbody", "run_rawbody")
+	o.DeclareSuite("plugin", "From Verif Require Import C16.Model.", "case_plugin", "run_plugin")
 	o.DeclareSuite("export", "From Verif Require Import C16.Model C16.Export.", "case_export", "run_export")
 	o.DeclareSuite("classify", "From Verif Require Import C16.Model C16.Spec C16.Classify.", "case_classify", "run_classify")
 	o.Rule("hand-written regression documents, then generated JSON documents (depth <= 4, keys from a " +
@@ -362,14 +378,14 @@ func main() {
 		"the `$.request.body`/`$.response.body` notation, through Obfuscator.ObfuscateJSON (md5 / short / fixed " +
 		"hasher), through the legacy diagnosis plugin's GenerateHAR and through the HAR collector's generateHAR " +
 		"for both directions; suite rawbody: bodies that are not JSON, empty bodies, obfuscation switched off, " +
-		"through both call sites; suite classify: the monitor's ambiguity verdict per exclusion against the Coq " +
+		"through both call sites; suite plugin: the JSON bodies sent through the legacy plugin, evaluated by the call-site model plugin_body (parsed = Some doc); suite classify: the monitor's ambiguity verdict per exclusion against the Coq " +
 		"predicate; suite export: the collector through NewProcessor + Execute with a capturing exporter, obfuscation " +
 		"enabled, per base document the grid transaction_max_size_bytes {not given, small, large} x Content-Length " +
 		"{absent, accurate, too small, too large, not a number} x {identity, gzip} x real body {below, at, above} the " +
 		"limit, on either side, plus a random stream (limit <= 0, negative / signed lengths, gzip declared but not " +
 		"compressed, compressed but not declared, other encodings, non-JSON and empty bodies, bodies on both sides); " +
 		"distinct = distinct (suite, inputs, output); non-trivial = the output has at least one leaf " +
-		"kept because of an exclusion and at least one hashed leaf (direct, collector) / the body does not parse " +
+		"kept because of an exclusion and at least one hashed leaf (direct, plugin, collector) / the body does not parse " +
 		"and obfuscation is on (rawbody) / some exclusion is ambiguous in the document (classify) / the transaction " +
 		"is exported, a limit is given and at least one leaf is hashed (export)")
 	var k Case
